@@ -237,7 +237,16 @@ func runC13(e *Env) {
 			return map[string]any{"pattern": pattern, "methods": methods, "middleware": nh, "options": optDesc, "router_without_routes": noRoutes, "group_prefix": inGroup, "failing_probe": probe}
 		})
 		t.AutoSample()
-		router := rux.New(opts...)
+		var router *rux.Router
+		if chance(r, 1, 3) {
+			// the same options applied after construction (legal while no route exists)
+			router = rux.New()
+			router.WithOptions(opts...)
+			optDesc = append(optDesc, "(applied through WithOptions after New)")
+			t.Count("totality.options_after_new", 1)
+		} else {
+			router = rux.New(opts...)
+		}
 		accepted := false
 		if !noRoutes {
 			reg := func() { router.Add(pattern, func(c *rux.Context) {}, methods...).Use(nHandlers(nh)...) }
@@ -290,6 +299,7 @@ func runC13(e *Env) {
 	}
 	e.Require("valid_neighbours.accepted", 50)
 	e.Require("totality.router_without_routes", 300)
+	e.Require("totality.options_after_new", 1000)
 	if e.replay == nil {
 		acc, defs := e.Counter("totality.accepted"), e.Counter("totality.definitions")
 		if defs > 0 && acc*5 < defs {
